@@ -149,12 +149,36 @@ def strip_comments(src):
     return ''.join(out)
 
 
+def prop_files(pid):
+    """Props/<pid>.lean and, when present, Props/<pid>Alg.lean (mathematical backbone, imported by the former)"""
+    out = []
+    for fn in (pid + '.lean', pid + 'Alg.lean'):
+        p = os.path.join(LEAN_DIR, 'PV', 'Props', fn)
+        if os.path.exists(p):
+            out.append(p)
+    return out
+
+
 def theorem_names(pid):
-    p = os.path.join(LEAN_DIR, 'PV', 'Props', pid + '.lean')
-    if not os.path.exists(p):
-        return []
-    src_nc = strip_comments(open(p).read())
-    return re.findall(r'^\s*theorem\s+([A-Za-z0-9_\.\']+)', src_nc, flags=re.M)
+    names = []
+    for p in prop_files(pid):
+        src_nc = strip_comments(open(p).read())
+        for n in re.findall(r'^\s*(?:protected\s+|private\s+)?theorem\s+([A-Za-z0-9_\.\']+)', src_nc, flags=re.M):
+            n = n[len('_root_.'):] if n.startswith('_root_.') else n
+            n = n[len('PV.'):] if n.startswith('PV.') else n
+            if n not in names:
+                names.append(n)
+    return names
+
+
+def namespaces(pid):
+    ns = []
+    for p in prop_files(pid):
+        for n in re.findall(r'^namespace\s+([A-Za-z0-9_\.]+)', strip_comments(open(p).read()), flags=re.M):
+            n = n if n.startswith('PV') else 'PV.' + n
+            if n not in ns and n != 'PV':
+                ns.append(n)
+    return ns
 
 
 def grep_forbidden(pid):
@@ -192,6 +216,8 @@ def build_and_audit(pid):
     audit = os.path.join(WORK, 'Audit_%s.lean' % pid)
     with open(audit, 'w') as f:
         f.write('import PV.Props.%s\nopen PV\n' % pid)
+        for ns in namespaces(pid):
+            f.write('open %s\n' % ns)
         for n in names:
             f.write('#print axioms %s\n#check @%s\n' % (n, n))
     with leanmod.LakeLock():
@@ -206,9 +232,9 @@ def build_and_audit(pid):
     # parse
     blocks = re.split(r"(?m)^(?=')|^(?=@)", txt)
     axioms = {}
-    for m in re.finditer(r"'([^']+)' depends on axioms: \[([^\]]*)\]", txt, flags=re.S):
+    for m in re.finditer(r"(?m)^'(.+)' depends on axioms: \[([^\]]*)\]", txt):
         axioms[m.group(1)] = [a.strip() for a in m.group(2).replace('\n', ' ').split(',') if a.strip()]
-    for m in re.finditer(r"'([^']+)' does not depend on any axioms", txt):
+    for m in re.finditer(r"(?m)^'(.+)' does not depend on any axioms", txt):
         axioms[m.group(1)] = []
     stmts = {}
     for m in re.finditer(r"(?ms)^@([A-Za-z0-9_\.']+) : (.*?)(?=^\S|\Z)", txt):
